@@ -139,7 +139,7 @@ def derivatives(ctx, case):
         assert_close(ctx, H @ d, ref, err, hscale * float(np.max(np.abs(d))), "hessian", "model=%s H.d, %s" % (model, label))
     # ---- Hessian-vector product
     p = np.resize(np.asarray(case["pvec"], dtype=float), len(names))
-    own_hessp = model in ("default", "extended", "cached_int", "cached_amp")
+    own_hessp = model in ("default", "extended", "cached_int", "cached_amp", "simple", "simple_clip")
     sig = None if own_hessp else "C07:grad_hessp:inherited_default_routine:model=%s" % model
     gp, hp = fcn.grad_hessp(x0, p, batch=None)
     gp, hp = np.asarray(gp, dtype=float), np.asarray(hp, dtype=float)
@@ -202,7 +202,7 @@ def case_st(models):
 
 
 def run_models(ctx):
-    groups = [["default", "extended"], ["cfit", "cfit_extended"], ["simple", "simple_clip", "cfit_cached"], ["cached_int", "cached_amp"]]
+    groups = [["default", "extended"], ["cfit", "cfit_extended"], ["simple", "simple_clip", "cfit_cached"], ["cached_int", "cached_amp", "constr_frac"]]
     g = groups[ctx.shard % len(groups)]
     # every model of the group in every shard: each claimed model (and each
     # recorded finding) is exercised in every run
